@@ -86,7 +86,18 @@ def r11a(ctx: Context) -> None:
                 rule.fail(key, where(logger, ret), f"a failure is suppressed under {[t for t, _ in positive]}: the suppression must depend on both the failure's line and its rule id")
                 continue
             # the two tables are consulted independently of each other
-            blocking = [text for text, node in negative if mentions(node, line_names | id_names, "line_number") or "pragma" in text.lower()]
+            def is_suppression(node: ast.AST) -> bool:
+                """the negated test is itself a complete suppression condition (line test and rule-id test in every
+                alternative): 'not already suppressed by the other table' blocks nothing"""
+                for option in conj(_facts(node, True)):
+                    option_positive = [n for n, pol in option if pol]
+                    has_line = any(mentions(n, line_names, "line_number") for n in option_positive)
+                    has_id = any(isinstance(n, ast.Compare) and isinstance(n.ops[0], ast.In) and mentions(n.left, id_names, "rule_id") for n in option_positive)
+                    if not (has_line and has_id):
+                        return False
+                return True
+
+            blocking = [text for text, node in negative if (mentions(node, line_names | id_names, "line_number") or "pragma" in text.lower()) and not is_suppression(node)]
             bounds: Dict[str, List[Tuple[bool, ast.AST]]] = {"lower": [], "upper": []}
             for node in line_test:
                 if not isinstance(node, ast.Compare):
@@ -571,9 +582,25 @@ def r11f(ctx: Context) -> None:
 def r11g(ctx: Context) -> None:
     prog = ctx.prog
     rule = ctx.rule("R11g", "every pragma either records a suppression or is reported as malformed", 4)
-    for name in ("compile_single_pragma", "__handle_disable_next_line", "__handle_disable_num_lines", "__handle_disable_num_lines_parse"):
-        func = prog.method(PRAGMA_EXT, name)
-        log_param = next((p for p in func.params if "log_pragma_failure" in p), None)
+    # the compiler and every helper of the pragma extension that is handed the 'report a malformed pragma' callback
+    entry = prog.method(PRAGMA_EXT, "compile_single_pragma")
+    entry_log = next((p for p in entry.params if "Protocol" in ast.unparse(next(a.annotation for a in entry.node.args.args if a.arg == p) or ast.Constant(value=""))), None)  # type: ignore[attr-defined]
+    if entry_log is None:
+        raise AnalysisError("compile_single_pragma: the callback that reports a malformed pragma was not found among its parameters")
+    log_carriers = forward_taint(prog, [(entry, entry_log)], any_expression=False)
+    table_params = [a.arg for a in entry.node.args.args if a.annotation is not None and ast.unparse(a.annotation).startswith(("Dict[int", "List[Tuple"))]  # type: ignore[attr-defined]
+    table_carriers: Dict[str, Set[str]] = {}
+    for table in table_params:
+        for qual, names in forward_taint(prog, [(entry, table)], any_expression=False).items():
+            table_carriers.setdefault(qual, set()).update(names)
+    compiler_funcs = [f for f in prog.cls(PRAGMA_EXT).methods.values() if log_carriers.get(f.qualname)]
+    if len(compiler_funcs) < 3:
+        raise AnalysisError(f"only {len(compiler_funcs)} functions of the pragma compiler receive the report callback (4 confirmed)")
+    compiler_quals = {f.qualname for f in compiler_funcs}
+    for func in sorted(compiler_funcs, key=lambda f: f.qualname):
+        log_names = log_carriers.get(func.qualname, set())
+        tables = table_carriers.get(func.qualname, set())
+        returned_locals = {r.id for r in returns_of(func) if isinstance(r, ast.Name)}
         cfg = CFG(func.node, raising=lambda n: False)
         bad = None
         count = 0
@@ -604,16 +631,18 @@ def r11g(ctx: Context) -> None:
                     continue
                 stmt = node.ast_node
                 for call in [c for c in ast.walk(stmt) if isinstance(c, ast.Call)]:
-                    if isinstance(call.func, ast.Name) and call.func.id == log_param:
-                        acted = True
-                    callee = dotted(call.func) or ""
-                    if "__handle_disable" in callee:
-                        acted = True
-                    if isinstance(call.func, ast.Attribute) and call.func.attr == "append" and "pragma" in norm(call.func.value):
-                        acted = True
-                    if isinstance(call.func, ast.Attribute) and call.func.attr == "add" and "processed" in norm(call.func.value):
-                        acted = True  # a valid id was collected; the store after the loop is checked by R11a
-                if isinstance(stmt, ast.Assign) and isinstance(stmt.targets[0], ast.Subscript) and "pragma" in norm(stmt.targets[0].value):
+                    if isinstance(call.func, ast.Name) and call.func.id in log_names:
+                        acted = True  # reported as malformed
+                    site = site_for(prog, func, call)
+                    if site and any(t.qualname in compiler_quals for t in site.targets):
+                        acted = True  # handed on to a helper of the compiler, which is checked in its own right
+                    if isinstance(call.func, ast.Attribute) and call.func.attr in ("append", "add", "update", "extend") and isinstance(call.func.value, ast.Name):
+                        receiver = call.func.value.id
+                        if receiver in tables:
+                            acted = True  # recorded in a suppression table
+                        elif receiver not in func.params:
+                            acted = True  # a valid id was collected in a local; what becomes of it is checked by R11a / the caller
+                if isinstance(stmt, ast.Assign) and isinstance(stmt.targets[0], ast.Subscript) and isinstance(stmt.targets[0].value, ast.Name) and stmt.targets[0].value.id in tables:
                     acted = True
                 if isinstance(stmt, ast.Return) and isinstance(stmt.value, ast.Tuple) and stmt.value.elts and isinstance(stmt.value.elts[0], ast.Constant) and stmt.value.elts[0].value is True:
                     explicit_ok = True  # parse helper reporting success to its caller
